@@ -432,6 +432,16 @@ def _psy_refs(text):
     return uses, calls
 
 
+def _err_head(err):
+    """Start of the error message proper (skips any traceback lines)."""
+    flat = " ".join((err or "").split())
+    for mark in ("Generation Error", "Error"):
+        if mark in flat:
+            flat = flat[flat.index(mark):]
+            break
+    return flat[:200]
+
+
 def _created(info):
     return [op["path"] for op in info["ops"] if op.get("op") == "created"]
 
@@ -565,8 +575,7 @@ def check_schedule(res, refs):
                     add("single.identical_run_failed",
                         "run %d produces the same kernel as run %d (variant "
                         "%s) but exited %s: %s" % (
-                            r["run"], crun, cvar, r["rc"],
-                            " ".join(err.split())[-260:]),
+                            r["run"], crun, cvar, r["rc"], _err_head(err)),
                         mechanism=_single_mechanism(sched, crun, r["run"]))
                 else:
                     facts["failed_expected"] += 1
@@ -814,10 +823,10 @@ def _account(ctx, res, refs):
 def _witness(res, v):
     cfg = res["cfg"]
     return {
-        "kind": v["kind"], "mechanism": v["mechanism"], "what": "%s [%s; "
-        "schedule %s]" % (v["what"], cfg["name"],
-                          " ".join("%d:%s" % (r, p)
-                                   for r, p, _ in res["schedule"])),
+        "kind": v["kind"], "mechanism": v["mechanism"],
+        "what": "[%s; schedule %s] %s" % (
+            cfg["name"], " ".join("%d:%s" % (r, p)
+                                  for r, p, _ in res["schedule"]), v["what"]),
         "rule": v["kind"], "config": cfg, "scheme": cfg["scheme"],
         "choices": res["choices"], "schedule": res["schedule"],
         "runs": [{"run": r["run"], "variant": r["variant"], "rc": r["rc"],
